@@ -18,6 +18,9 @@ HISTORIES = {
     "H1": ["T21", "T22", "T21", "T2x", "Q", "CL"],
     "H2": ["T2x", "SUS", "OPN", "T21", "T22", "T2x"],
     "H3": ["T22", "T22", "IP", "T21", "T20", "CL2"],
+    # a non-runner declared in an update that also carries trades on the other runner (either way round)
+    "H4": ["T21", "Q", "RM1T3", "T3", "T3", "CL2"],
+    "H5": ["T3", "Q", "RM2T21", "T21", "T22", "CL"],
 }
 
 
@@ -135,6 +138,14 @@ class Rec:
     def __init__(self, life):
         self.life = life
         self.calls = []  # (kind, who, callback, pt)
+        self.packaged = set()  # (id(order), package type) handed to the execution layer
+
+    def package(self, w, p):
+        for o in p._orders:
+            self.packaged.add((id(o), p.package_type.name))
+        cb = getattr(self.life, "package", None)
+        if cb:
+            cb(w, p)
 
     def __getattr__(self, name):
         return getattr(self.life, name)
@@ -175,6 +186,14 @@ def _fault_classes():
 
         def process_market_book(self, market, market_book):
             self._maybe("process_market_book", market_book)
+            if self.fault and self.fault[0] == "in_transaction":
+                n = self.counts_cb.get("in_transaction", 0)
+                self.counts_cb["in_transaction"] = n + 1
+                if self.fault[1] == n:
+                    # the strategy's own code batches a placement and a cancel of its first order in a
+                    # `with market.transaction()` block and raises inside the block
+                    self.fired = True
+                    self.do(["TXR", [L.P("PBn"), ["C", 0, None]]], market, 0, n)
             return super().process_market_book(market, market_book)
 
         def process_orders(self, market, orders):
@@ -273,6 +292,14 @@ def _fault_one(args):
         if not mws or (sts and max(mws) > min(sts)):
             out.append(core.v("C13.c", key("ordering"), "update %s: middleware calls %s, strategy calls %s" % (pt, mws, sts), case))
             break
+    # d) no request that was accepted is stranded: an order waiting for an answer has a package that carries it
+    m0 = w.market(0)
+    if m0 is not None:
+        need = {"PENDING": "PLACE", "CANCELLING": "CANCEL", "UPDATING": "UPDATE", "REPLACING": "REPLACE"}
+        for o in m0.blotter:
+            stn = L.sname(o.status)
+            if stn in need and (id(o), need[stn]) not in rec.packaged:
+                out.append(core.v("C13.d", key("stranded " + stn), "order of strategy %s is %s but no %s package carrying it was ever handed to the execution layer" % (o.trade.strategy.name, stn, need[stn]), case))
     # d) invariants
     for d in life.viol:
         out.append(core.v("C13.d", key("invariant " + d["key"][0]), d["detail"], case))
@@ -434,6 +461,8 @@ def run(tier):
                 for idx in range(nupd if cb != "process_new_market" else 1):
                     for exc in ("value", "flumine"):
                         fj.append((hn, target, (cb, idx, exc)))
+            for idx in range(nupd - 1):
+                fj.append((hn, target, ("in_transaction", idx, "value")))
         for idx in range(nupd):
             for exc in ("value", "flumine"):
                 fj.append((hn, "mw", ("middleware", idx, exc)))
